@@ -12,7 +12,7 @@ from vpkit import common
 
 ID = "C19"
 N = {"quick": 64, "thorough": 1600}
-BUDGET = {"quick": 240.0, "thorough": 1200.0}
+BUDGET = {"quick": 240.0, "thorough": 700.0}
 RULE = ("case = a block of 120 arguments per helper (digamma, trigamma, betaln, moment fit, KL fit with "
         "shapes 1e-9..1e9, quantile fit incl. capped shapes), log-uniform over 16 decades plus all "
         "series cut-offs +-ulp; distinct = (helper, argument) points; non-trivial = every point")
